@@ -5,6 +5,7 @@ still pass. Then store patch.diff and meta.json under /verif/refactors/<name>/.
 usage: verify_refactor.py <name> <dir>"""
 import json, os, shutil, subprocess, sys, tempfile
 name, src = sys.argv[1], sys.argv[2]
+base_commit = sys.argv[3] if len(sys.argv) > 3 else subprocess.run(["git", "-C", "/repo", "rev-parse", "--short", "HEAD"], capture_output=True, text=True).stdout.strip()
 ENV = dict(os.environ, GOFLAGS="-mod=mod", GOPROXY="off", GOSUMDB="off", GOTOOLCHAIN="local")
 wt = tempfile.mkdtemp(prefix="vref-", dir="/tmp"); os.rmdir(wt)
 def sh(cmd, cwd=None, timeout=1800):
@@ -12,7 +13,7 @@ def sh(cmd, cwd=None, timeout=1800):
     return p.returncode, p.stdout + p.stderr
 ok, ran = True, []
 try:
-    rc, out = sh(f"git -C /repo worktree add --detach {wt} HEAD"); assert rc == 0, out
+    rc, out = sh(f"git -C /repo worktree add --detach {wt} {base_commit}"); assert rc == 0, out
     rc, out = sh(f"git apply {os.path.join(src,'patch.diff')}", cwd=wt); ran.append({"cmd": "git apply", "rc": rc}); assert rc == 0, out
     rc, out = sh("go build ./...", cwd=wt); ran.append({"cmd": "go build ./...", "rc": rc}); assert rc == 0, out
     base = json.load(open("/root/.vp/BASELINE.json"))["stable_pass"]
@@ -35,7 +36,7 @@ try:
     os.makedirs(dst, exist_ok=True)
     shutil.copy(os.path.join(src, "patch.diff"), dst)
     meta = json.load(open(os.path.join(src, "meta.json"))) if os.path.exists(os.path.join(src, "meta.json")) else {}
-    meta.update({"confirmed": ok, "confirmed_by": "tools/verify_refactor.py in a scratch worktree of /repo HEAD", "ran": ran})
+    meta.update({"base": base_commit, "confirmed": ok, "confirmed_by": "tools/verify_refactor.py in a scratch worktree of /repo at the base commit", "ran": ran})
     json.dump(meta, open(os.path.join(dst, "meta.json"), "w"), indent=1)
     print(name, "CONFIRMED" if ok else "NOT CONFIRMED", missing[:5])
 except AssertionError as e:
